@@ -143,7 +143,8 @@ static int cmdRun(std::map<std::string, std::string>& a)
         Plan plan = generate(prop, tier, seed, idx);
         const auto r0 = std::chrono::steady_clock::now();
         alarm(120);  // a hang is a violation; normal runs take milliseconds, the slowest (C09 wrap runs, C19) a few seconds
-        RunResult r = execForProp(plan);
+        // C19 needs cold process state for every run (lazily initialised / grow-on-demand statics): one forked child per run
+        RunResult r = (prop == "C19") ? runForkedFull(plan) : execForProp(plan);
         alarm(0);
         const uint64_t runMs = static_cast<uint64_t>(std::chrono::duration_cast<std::chrono::milliseconds>(std::chrono::steady_clock::now() - r0).count());
         if (runMs > maxRunMs)
